@@ -391,6 +391,13 @@ PREPS = (
                                     b'urn:nfc:sn:c1'),)),
     ('conn.out.rw0+acc1.read', 1, (('connect_out', 0, None, 16),
                                    ('rx', ACC, 1, 1))),
+    # (g) two / three connections accepted on ONE service access point (33),
+    # each owing a voluntary acknowledgement (index 3, 4 = the further ones)
+    ('sap33x2.read', 2, (('accept2',), ('rx', ACC, 1, 1), ('rx', 3, 1, 1))),
+    ('sap33x3.read', 2, (('accept2',), ('accept2',), ('rx', ACC, 1, 1),
+                         ('rx', 3, 1, 1), ('rx', 4, 1, 1))),
+    ('sap33x2.read+dyn2.read1of1', 2, (('accept2',), ('rx', ACC, 1, 1),
+                                       ('rx', 3, 1, 1), ('rx', C0, 1, 1))),
     # combinations
     ('acc1.read+dyn1.read', 1, (('rx', ACC, 1, 1), ('rx', C1, 1, 1))),
     ('acc1.read+dm.sap35', 1, (('rx', ACC, 1, 1), ('pdu_in', 'dm35'))),
@@ -464,6 +471,25 @@ class DeepSpec(Spec):
             assert [p.name for p in w.c[i].recv_queue] == ['I'] * n
             for j in range(k):
                 assert A.recv(w.c[i]) == payload(3, 3 + j)
+        elif kind == 'accept2':
+            # one more connection from B to the listening socket on SAP 33
+            import nfc.llcp.llc as llc
+            bs = B.socket(llc.DATA_LINK_CONNECTION)
+            B.setsockopt(bs, nfc.llcp.SO_RCVMIU, self.M)
+            B.setsockopt(bs, nfc.llcp.SO_RCVBUF, 2)
+            acc = []
+
+            def hook():
+                if len(w.als.recv_queue):
+                    acc.append(A.accept(w.als))
+            out = lp.run_blocking(lambda: B.connect(bs, 33), B, A,
+                                  after_round=hook)
+            assert out.done and out.exc is None and len(acc) == 1, out.exc
+            assert acc[0].addr == 33 and acc[0].recv_win == self.acc_rw
+            w.c = w.c + [acc[0]]
+            w.bc = w.bc + [bs]
+            w.m = w.m + [bs.recv_miu]
+            assert lp.quiesce(A, B) is not None
         elif kind == 'busy':
             s = w.c[st[1]]
             A.setsockopt(s, nfc.llcp.SO_RCVBSY,
